@@ -735,6 +735,38 @@ def rule_roll(ctx: Ctx):
             r1.ob(ok, lambda: mk_finding("DP-1", spec2, kind, cfg, p,
                                          "the in-window counter must be written back once: 0 when the window closes, (value read) + 1 otherwise; "
                                          "this path writes %s" % ("; ".join(show(w.extra[0]) for w in writes) or "nothing"), extra="count-write"))
+    # ---- the tumbling variant is chosen exactly when window == stride -----------------------------
+    rm, rf = ctx.function("rxsci/data/roll.py", "roll_mux")
+    r2.instances += 1
+    saw_t = saw_s = False
+    for p in ctx.fn_paths(rm, rf, inline=False):
+        r2.paths += 1
+        v = p.value
+        if p.outcome != "return" or v is None or v[0] != "tuple" or len(v) < 2 or v[1][0] != "func":
+            if p.outcome == "return" and v is not None and v[0] == "ifexp":
+                continue
+            continue
+        chosen = v[1][1]
+        is_tumbling = chosen is site2.subscribe_fn or site2.module.enclosing_function(site2.subscribe_fn) is chosen
+        is_sliding = chosen is site.subscribe_fn or site.module.enclosing_function(site.subscribe_fn) is chosen
+        eq = None
+        for e in p.trace:
+            if e.k == "decision":
+                nf = normalise_cmp(e.test, e.outcome)
+                if nf is not None:
+                    names = {k[1] for k, _ in nf[1] if k[0] in ("arg", "param")}
+                    if names == {"window", "stride"} and nf[2] == 0 and sorted(abs(c) for _, c in nf[1]) == [1, 1] and sum(c for _, c in nf[1]) == 0:
+                        eq = nf[0]
+        if is_tumbling:
+            saw_t = True
+            r2.ob(eq == "Eq", lambda eq=eq: Finding(
+                "DP-2", "rxsci/data/roll.py::roll_mux{variant}", rm.where(rf),
+                "the tumbling implementation (one counter, windows every 'window' items) is selected under 'window %s stride' instead of window == stride: "
+                "it ignores the stride, so it is only correct when both are equal" % {"LtE": "<=", "GtE": ">=", "Lt": "<", "Gt": ">", "NotEq": "!=", None: "(no test on)"}.get(eq, eq),
+                trace_of(p)))
+        elif is_sliding:
+            saw_s = True
+    r2.ob(saw_s, lambda: Finding("DP-2", "rxsci/data/roll.py::roll_mux{variant-sliding}", rm.where(rf), "roll_mux never returns the sliding implementation"))
     for r in (r0, r1, r2, r3):
         r.require_instances(1)
     return [r0, r1, r2, r3]
